@@ -11,7 +11,7 @@ from hypothesis import strategies as st
 
 from vlib import gen, ref
 from vlib.case import hash_noise, tdtype
-from vlib.core import EPS32, Facet, Violation, check_close, eps_of
+from vlib.core import EPS32, EPS64, Facet, Violation, check_close, eps_of
 
 PROPERTY = "C12"
 MANIFEST = {
@@ -20,24 +20,40 @@ MANIFEST = {
             "accepted form of the spacing argument (float/int/0-d tensor scalar, per-axis list/tuple/tensor, (1,D), (N,1), (N,D)), "
             "all six finite-difference modes and mode='bspline' (stride 1..4, int or per-axis list/tuple). Affine fields u(x)=Ax+b sampled at x=index*spacing are "
             "compared with the analytic Jacobian, determinant (with/without identity), divergence, curl and Lie bracket computed in "
-            "float64 numpy (everywhere for forward_central_backward, one sample inside the faces for the other schemes); second "
-            "derivatives of quadratic fields with 2Q two samples inside the faces; arbitrary key requests (both spellings of mixed "
+            "float64 numpy at EVERY grid point: exact everywhere for forward_central_backward (default), prewitt and sobel; for the "
+            "replicate-padded forward/backward/central schemes exact inside and the value the padded stencil gives on the two faces "
+            "along the derived axis (zero on the padded side, half the slope for central), with the derived quantities assembled "
+            "from these per-point Jacobians. Second derivatives of quadratic fields equal 2Q wherever both passes of the scheme use "
+            "complete stencils (per mode/key region, mixed keys of the four plain schemes at every grid point with the product of "
+            "the face weights); arbitrary key requests (both spellings of mixed "
             "keys, shorthand and multi-channel keys, duplicates, order filter) against the complete request and the key expansion "
-            "rule of the docstring; B-spline mode against an independent tensor-product cubic B-spline evaluator. Exploration: no "
+            "rule of the docstring; B-spline mode against an independent tensor-product cubic B-spline evaluator; all first/second "
+            "derivatives and the derived quantities of hash-noise fields in every finite-difference mode, with and without Gaussian "
+            "pre-smoothing (sigma), against a numpy model of the documented stencils (textbook prewitt [1,1,1]/3 and sobel [1,2,1]/4 "
+            "smoothing, truncated normalised Gaussian). Exploration: no "
             "absence proof; the discrete errors at stake (wrong axis, wrong batch item, wrong power of the spacing, missing "
-            "normalisation, sign, transposed matrix) are O(1) relative while the bounds are ~1e-6 (float64) .. 1e-4 (float32).",
+            "normalisation, sign, transposed matrix, wrong face stencil/padding, dropped sigma) are O(1) relative while the bounds are ~1e-6 (float64) .. 1e-4 (float32).",
     "note": "Trusted: numpy float64 arithmetic, vlib.ref.bspline_basis/bspline_eval_1d (self-tested on polynomial precision), the "
-            "closed forms in props/c12.py. CPU only; sigma (Gaussian pre-smoothing), mode='gaussian', the undocumented default "
-            "spacing (spacing=None) and border values of one-sided/replicate-padded/smoothed schemes are outside the property.",
-    "technique": "property-based testing (Hypothesis) with closed-form (analytic) oracles, an independent reference model for the "
-                 "B-spline mode and a metamorphic subset-vs-full relation",
+            "closed forms and the stencil model in props/c12.py (self-tested on ramps/polynomials). CPU only; mode='gaussian', the "
+            "undocumented default spacing (spacing=None), sigma combined with mode='bspline', and with sigma > 0 the samples whose "
+            "stencil chain reaches a face (the padding of the Gaussian pass is not documented) are outside the check.",
+    "technique": "property-based testing (Hypothesis) with closed-form (analytic) oracles, independent reference models for the "
+                 "B-spline mode and the finite-difference stencils, and a metamorphic subset-vs-full relation",
 }
 ASSUMPTIONS = [
     "bounds: first derivatives K(eps_dtype*max|u_c|/h_j + eps32*|A_cj|), second derivatives K(4 eps_dtype*max|u_c|/(h_i h_j) + "
-    "2 eps32*|2Q_cij|) with K=8; eps32 enters for float64 fields too because spatial_derivatives casts the spacing to float32",
-    "interior = 1 sample from each face for first derivatives of all modes except forward_central_backward (exact everywhere), "
-    "2 samples from each face for second derivatives of every mode",
-    "spacing values in [0.25, 4] (first order) / [0.5, 2] (second order) so that the float32 conditioning max|u|/h stays small",
+    "2 eps32*|2Q_cij|) with K=8 (times D for prewitt/sobel: one difference pass plus D-1 smoothing passes); eps32 enters for "
+    "float64 fields too because spatial_derivatives casts the spacing to float32",
+    "face values of affine fields: forward (1, 0), backward (0, 1), central (1/2, 1/2) times the slope on the (lower, upper) face "
+    "along the derived axis - the differences of the replicate-padded field the property statement names; exact on the faces for "
+    "forward_central_backward (documented one-sided face differences) and for prewitt/sobel (the same differences after smoothing "
+    "along the other axes only; since the repair of F24 that smoothing is replicate-padded 'so derivatives of affine fields are exact at the border')",
+    "second derivatives are the scheme applied once per letter of the (sorted) key; closed-form regions: see second_order_region()",
+    "stencil model: bound = K x (rounding error propagated through the passes: 2 eps max|f| per smoothing pass, "
+    "(2 eps + eps32) 2 max|f|/h per difference pass, D (2 eps + 16 eps32) max|f| for the float32 Gaussian kernel); Gaussian "
+    "kernel = exp(-x^2/(2 sigma^2)) sampled at integers |x| <= floor(3 sigma), normalised (gaussian_kernel_radius/gaussian1d); "
+    "with sigma > 0 only samples at least radius + derivative order away from every face are compared",
+    "spacing values in [0.25, 4] (first order) / [0.5, 2] (second order, stencil model) so that the float32 conditioning max|u|/h stays small",
 ]
 
 L1 = {0: 1.0, 1: 2.0, 2: 4.0}  # upper bounds of sum |w| of the 4 cubic B-spline basis (derivative) weights
@@ -153,6 +169,39 @@ def interior(D, margin):
     return (Ellipsis,) + (slice(margin, -margin),) * D
 
 
+# Value of the first derivative of an affine field on the (lower, upper) face along the derived axis, as a fraction of
+# the slope, for each documented scheme: forward/backward/central differences of the replicate-padded field give a zero
+# difference on the padded side (central: half the slope on both faces); forward_central_backward (= default) uses
+# one-sided differences on the faces and is exact there; prewitt/sobel are forward_central_backward differences of the
+# field smoothed (replicate-padded) along the other axes, which leaves the slope along the derived axis unchanged.
+FACE = {"forward": (1.0, 0.0), "backward": (0.0, 1.0), "central": (0.5, 0.5)}
+SMOOTHED = ("prewitt", "sobel")
+
+
+def face_weights(mode, shape, j):
+    """Array broadcastable to `shape` (..., X): 1 inside, FACE[mode] on the two faces along spatial dim j (x = 0)."""
+    D = len(shape)
+    n = shape[D - 1 - j]
+    w = np.ones(n)
+    w[0], w[-1] = FACE.get(mode, (1.0, 1.0))
+    return w.reshape([n if ax == D - 1 - j else 1 for ax in range(D)])
+
+
+def jacobian_field(A, shape, mode):
+    """Documented first derivatives of the affine field with matrix A at every grid point, array (..., X, D, D)."""
+    D = len(shape)
+    J = np.empty(tuple(shape) + (D, D))
+    for c in range(D):
+        for j in range(D):
+            J[..., c, j] = A[c, j] * face_weights(mode, shape, j)
+    return J
+
+
+def kmode(mode, D):
+    """Rounding-error factor: K per pass over the data (the difference pass plus D-1 smoothing passes of prewitt/sobel)."""
+    return K * D if mode in SMOOTHED else K
+
+
 def aniso(sp):
     return any(max(s) / min(s) > 1.05 for s in sp)
 
@@ -230,11 +279,13 @@ def run_affine(case):
     maxv = np.abs(np.stack(vs)).reshape(N, D, -1).max(-1)
     h = np.array(sp, dtype=np.float64)  # (N, D)
     # per-entry error bounds of the first derivatives (see ASSUMPTIONS)
-    eu = K * (eps * maxu[:, :, None] / h[:, None, :] + EPS32 * np.abs(A))  # (N, D, D)
-    ev = K * (eps * maxv[:, :, None] / h[:, None, :] + EPS32 * np.abs(B))
+    km = kmode(mode, D)
+    eu = km * (eps * maxu[:, :, None] / h[:, None, :] + EPS32 * np.abs(A))  # (N, D, D)
+    ev = km * (eps * maxv[:, :, None] / h[:, None, :] + EPS32 * np.abs(B))
     kw = dict(mode=mode, spacing=spacing)
-    margin = 0 if mode in (None, "forward_central_backward") else 1
-    reg = interior(D, margin)
+    # documented value of every first derivative at EVERY grid point (faces included, see FACE)
+    Ju = [jacobian_field(A[n], shape, mode) for n in range(N)]
+    Jv = [jacobian_field(B[n], shape, mode) for n in range(N)]
     worst = 0.0
 
     def close(actual, expected, bound, kind, what):
@@ -252,7 +303,7 @@ def run_affine(case):
             expect_shape(val, (N, 1) + shape, "flow_derivatives value")
             expect_dtype(val, dt, "flow_derivatives value")
             for n in range(N):
-                close(val[n, 0][reg], A[n, c, j], eu[n, c, j], "flow_derivatives", f"d{CH[c]}/d{AX[j]} of item {n}")
+                close(val[n, 0], Ju[n][..., c, j], eu[n, c, j], "flow_derivatives", f"d{CH[c]}/d{AX[j]} of item {n}")
 
     # Jacobian matrix / dict, with and without identity
     for add_id in (False, True):
@@ -262,22 +313,22 @@ def run_affine(case):
         if set(Jd.keys()) != set(itertools.product(range(D), repeat=2)):
             raise Violation("keys", f"jacobian_dict() keys {sorted(Jd)}")
         for n in range(N):
-            E = A[n] + (np.eye(D) if add_id else 0.0)
+            E = Ju[n] + (np.eye(D) if add_id else 0.0)
             for c in range(D):
                 for j in range(D):
                     bnd = eu[n, c, j] + (2 * eps if add_id else 0.0)
-                    close(J[n][reg + (c, j)], E[c, j], bnd, "jacobian_matrix", f"J[{c},{j}] add_identity={add_id} item {n}")
-                    close(Jd[(c, j)][n, 0][reg], E[c, j], bnd, "jacobian_dict", f"J[{c},{j}] add_identity={add_id} item {n}")
+                    close(J[n][..., c, j], E[..., c, j], bnd, "jacobian_matrix", f"J[{c},{j}] add_identity={add_id} item {n}")
+                    close(Jd[(c, j)][n, 0], E[..., c, j], bnd, "jacobian_dict", f"J[{c},{j}] add_identity={add_id} item {n}")
 
     # determinant
     for add_id in (True, False):
         det = U.jacobian_det(u, add_identity=add_id, **kw)
         expect_shape(det, (N, 1) + shape, "jacobian_det")
         for n in range(N):
-            E = A[n] + (np.eye(D) if add_id else 0.0)
+            E = Ju[n] + (np.eye(D) if add_id else 0.0)
             m = max(1.0, float(np.abs(E).max()))
             bnd = math.factorial(D) * D * m ** (D - 1) * float(eu[n].max()) + 16 * eps * math.factorial(D) * m ** D
-            close(det[n, 0][reg], np.linalg.det(E), bnd, "jacobian_det" if add_id else "jacobian_det_no_identity",
+            close(det[n, 0], np.linalg.det(E), bnd, "jacobian_det" if add_id else "jacobian_det_no_identity",
                   f"det add_identity={add_id} item {n}")
     det_default = U.jacobian_det(u, **kw)
     close(det_default, U.jacobian_det(u, add_identity=True, **kw), 0.0, "jacobian_det_default", "default add_identity must be True")
@@ -287,7 +338,7 @@ def run_affine(case):
     expect_shape(div, (N, 1) + shape, "divergence")
     for n in range(N):
         bnd = float(sum(eu[n, i, i] for i in range(D))) + 4 * eps * float(np.abs(np.diag(A[n])).sum())
-        close(div[n, 0][reg], np.trace(A[n]), bnd, "divergence", f"item {n}")
+        close(div[n, 0], np.trace(Ju[n], axis1=-2, axis2=-1), bnd, "divergence", f"item {n}")
 
     # curl
     curl = U.curl(u, **kw)
@@ -299,20 +350,24 @@ def run_affine(case):
             pairs = [((2, 1), (1, 2)), ((0, 2), (2, 0)), ((1, 0), (0, 1))]
         for k, (p, q) in enumerate(pairs):
             bnd = float(eu[n][p] + eu[n][q]) + 4 * eps * float(abs(A[n][p]) + abs(A[n][q]))
-            close(curl[n, k][reg], A[n][p] - A[n][q], bnd, "curl", f"component {k} item {n}")
+            close(curl[n, k], Ju[n][(Ellipsis,) + p] - Ju[n][(Ellipsis,) + q], bnd, "curl", f"component {k} item {n}")
 
-    # Lie bracket [v, u] = Jac(v) u - Jac(u) v = B (A x + a) - A (B x + b)
+    # Lie bracket [v, u] = Jac(v) u - Jac(u) v with the per-point Jacobians (= B (A x + a) - A (B x + b) inside)
     lb = U.lie_bracket(v, u, **kw)
     expect_shape(lb, (N, D) + shape, "lie_bracket")
     expect_dtype(lb, dt, "lie_bracket")
     for n in range(N):
+        un, vn = np.moveaxis(us[n], 0, -1), np.moveaxis(vs[n], 0, -1)  # (..., X, D)
+        exp = np.einsum("...ij,...j->...i", Jv[n], un) - np.einsum("...ij,...j->...i", Ju[n], vn)
         M = B[n] @ A[n] - A[n] @ B[n]
         t = B[n] @ a[n] - A[n] @ b[n]
-        exp = np.moveaxis(xs[n] @ M.T + t, -1, 0)
+        inner = interior(D, 1)
+        if np.abs(np.moveaxis(exp, -1, 0)[inner] - np.moveaxis(xs[n] @ M.T + t, -1, 0)[inner]).max() > 1e-9 * (1 + np.abs(exp).max()):
+            raise AssertionError("harness: per-point Lie bracket differs from the closed form in the interior")
         for i in range(D):
             bnd = float(sum(ev[n, i, j] * maxu[n, j] + eu[n, i, j] * maxv[n, j] for j in range(D)))
             bnd += 8 * eps * float(sum(abs(B[n, i, j]) * maxu[n, j] + abs(A[n, i, j]) * maxv[n, j] for j in range(D)))
-            close(lb[n, i][reg], exp[i][reg], bnd, "lie_bracket", f"component {i} item {n}")
+            close(lb[n, i], exp[..., i], bnd, "lie_bracket", f"component {i} item {n}")
 
     if not (torch.equal(u, u0) and torch.equal(v, v0)):
         raise Violation("input_modified", "a derivative function modified its input vector field")
@@ -372,6 +427,32 @@ def sym_from_upper(vals, D):
     return Q
 
 
+def second_order_region(mode, shape, i, j):
+    """(index tuple, weight array): where the second derivative d2/didj of a quadratic field, computed as the documented
+    first-derivative scheme applied along i and then j, has the closed-form value weight * 2Q_ij.
+
+    mixed keys, plain schemes: the first pass yields (face weight) x (derivative at the stencil midpoint), which is affine
+      along j with slope 2Q_ij, so the value is 2Q_ij times the product of the two face weights at EVERY grid point
+      (forward_central_backward: exact everywhere);
+    unmixed keys: exact wherever both passes use complete stencils along i: all but the two samples next to a padded face
+      (forward: upper, backward: lower, central: both); forward_central_backward, prewitt, sobel: two samples from both
+      faces (the one-sided face difference is the derivative half a sample off); every position along the other axes;
+    mixed keys, prewitt/sobel: two samples from the faces along i and j (replicate-padded smoothing of the bilinear term
+      between the passes perturbs the two outer layers), every position along the remaining axis."""
+    D = len(shape)
+    idx = [slice(None)] * D
+    wgt = np.ones((1,) * D)
+    if i == j:
+        n = shape[D - 1 - i]
+        idx[D - 1 - i] = {"forward": slice(0, n - 2), "backward": slice(2, n)}.get(mode, slice(2, n - 2))
+    elif mode in SMOOTHED:
+        for d in (i, j):
+            idx[D - 1 - d] = slice(2, shape[D - 1 - d] - 2)
+    else:
+        wgt = face_weights(mode, shape, i) * face_weights(mode, shape, j)
+    return tuple(idx), wgt
+
+
 def run_quadratic(case):
     from deepali.core import functional as U
 
@@ -396,21 +477,22 @@ def run_quadratic(case):
         deriv = U.flow_derivatives(u, which=keys, mode=mode, spacing=spacing)
     if set(deriv.keys()) != set(keys):
         raise Violation("keys", f"flow_derivatives() returned keys {sorted(deriv)} instead of {keys}")
-    reg = interior(D, 2)
     worst = 0.0
+    km = kmode(mode, D)
     for key in keys:
         c, i, j = CH.index(key[1]), AX.index(key[4]), AX.index(key[5])
         val = deriv[key]
         expect_shape(val, (N, 1) + shape, f"value of {key}")
+        reg, wgt = second_order_region(mode, shape, i, j)
         for n in range(N):
             hi, hj = sp[n][i], sp[n][j]
-            bnd = K * (4 * eps * maxu[n, c] / (hi * hj) + 2 * EPS32 * abs(2 * Qs[n][c, i, j]))
-            worst = max(worst, check_close(val[n, 0][reg], 2 * Qs[n][c, i, j], bnd, "second_derivative",
+            bnd = km * (4 * eps * maxu[n, c] / (hi * hj) + 2 * EPS32 * abs(2 * Qs[n][c, i, j]))
+            worst = max(worst, check_close(val[n, 0][reg], (2 * Qs[n][c, i, j] * wgt * np.ones(shape))[reg], bnd, "second_derivative",
                                            f"{key} item {n} (mode={mode}, spacing {case['spform']})"))
         if i != j and case["request"] != "curvature":
             other = deriv[f"d{CH[c]}/d{AX[j]}{AX[i]}"]
             for n in range(N):  # same rounding-error budget as above for each of the two spellings, whole domain
-                bnd = 2 * K * (4 * eps * maxu[n, c] / (sp[n][i] * sp[n][j]) + 2 * EPS32 * abs(2 * Qs[n][c, i, j]))
+                bnd = 2 * km * (4 * eps * maxu[n, c] / (sp[n][i] * sp[n][j]) + 2 * EPS32 * abs(2 * Qs[n][c, i, j]))
                 worst = max(worst, check_close(other[n], val[n], bnd, "mixed_symmetry", f"{key} vs transposed spelling, item {n}"))
     nt = all(np.abs(Q).min() > 0.004 for Q in Qs) and max(shape) >= 6
     return {"ratio": worst, "nontrivial": nt,
@@ -717,6 +799,216 @@ def run_bspline(case):
 
 
 # ---------------------------------------------------------------------------------------
+# facet 5: every scheme against an independent numpy model of the documented stencils, arbitrary (non-polynomial) fields
+
+
+def fd_ref(f, axis, h, scheme):
+    """First difference of float64 array f along `axis` with step h: forward/backward/central differences of the
+    replicate-padded array, or ('fcb') central differences with one-sided differences on the two faces."""
+    f = np.moveaxis(f, axis, -1)
+    d = np.empty_like(f)
+    if scheme == "forward":
+        d[..., :-1] = (f[..., 1:] - f[..., :-1]) / h
+        d[..., -1] = 0.0
+    elif scheme == "backward":
+        d[..., 1:] = (f[..., 1:] - f[..., :-1]) / h
+        d[..., 0] = 0.0
+    elif scheme == "central":
+        d[..., 1:-1] = (f[..., 2:] - f[..., :-2]) / (2 * h)
+        d[..., 0] = (f[..., 1] - f[..., 0]) / (2 * h)
+        d[..., -1] = (f[..., -1] - f[..., -2]) / (2 * h)
+    elif scheme == "fcb":
+        d[..., 1:-1] = (f[..., 2:] - f[..., :-2]) / (2 * h)
+        d[..., 0] = (f[..., 1] - f[..., 0]) / h
+        d[..., -1] = (f[..., -1] - f[..., -2]) / h
+    else:
+        raise ValueError(scheme)
+    return np.moveaxis(d, -1, axis)
+
+
+def corr_ref(f, axis, w):
+    """Correlation of f along `axis` with the odd-length weights w, replicate-padded, same size."""
+    r = len(w) // 2
+    g = np.moveaxis(f, axis, -1)
+    n = g.shape[-1]
+    p = np.concatenate([g[..., :1]] * r + [g] + [g[..., -1:]] * r, axis=-1)
+    out = sum(w[k] * p[..., k:k + n] for k in range(2 * r + 1))
+    return np.moveaxis(out, -1, axis)
+
+
+def gauss_radius(sigma):
+    """Truncation radius of the Gaussian kernel: three standard deviations, rounded down (gaussian_kernel_radius)."""
+    return int(math.floor(3 * sigma + 1e-6)) if sigma else 0
+
+
+def gauss_ref(f, sigma):
+    """Separable, normalised, sampled Gaussian of standard deviation sigma (grid units) truncated at gauss_radius."""
+    r = gauss_radius(sigma)
+    if r == 0:
+        return f
+    x = np.arange(-r, r + 1, dtype=np.float64)
+    w = np.exp(-0.5 * (x / sigma) ** 2)
+    w /= w.sum()
+    for axis in range(f.ndim):
+        f = corr_ref(f, axis, w)
+    return f
+
+
+AVG = {"prewitt": np.array([1.0, 1.0, 1.0]) / 3.0, "sobel": np.array([1.0, 2.0, 1.0]) / 4.0}
+
+
+def deriv_ref(f, letters, h, mode, sigma, eps):
+    """Documented derivative of one scalar float64 array f (..., X) and a bound of the rounding error of an evaluation in
+    arithmetic of precision eps (spacing and Gaussian weights in float32).
+
+    letters: derivative key ('x', 'xy', ...); derivatives are taken one after the other in sorted key order, each pass being
+    the scheme of `mode` (prewitt/sobel: [1,1,1]/3 resp. [1,2,1]/4 smoothing along all other axes, then central differences
+    with one-sided face differences); h: spacing per spatial dim (x first)."""
+    D = f.ndim
+    M = float(np.abs(f).max())
+    e = 0.0
+    if gauss_radius(sigma) > 0:
+        f = gauss_ref(f, sigma)
+        e += D * (2 * eps + 16 * EPS32) * M  # D passes with float32 weights exp(-x^2/(2 sigma^2)), |x/sigma| <= 3
+    scheme = "fcb" if mode in (None, "forward_central_backward") + SMOOTHED else mode
+    for l in sorted(letters):
+        j = AX.index(l)
+        if mode in SMOOTHED:
+            for d in range(D):
+                if d != j:
+                    f = corr_ref(f, D - 1 - d, AVG[mode])
+                    e += 2 * eps * M
+        f = fd_ref(f, D - 1 - j, h[j], scheme)
+        M = 2 * M / h[j]  # |difference| <= 2 max|f| / h (one-sided face differences)
+        e = 2 * e / h[j] + (2 * eps + EPS32) * M
+    return f, K * e
+
+
+def noise_field(shape, N, D, key, content, sp, A, Q):
+    """(N, D, ..., X) float64: hash noise in [-1, 1] (+ a quadratic polynomial per item)."""
+    u = hash_noise((N, D) + tuple(shape), key, -1.0, 1.0)
+    if content == "noise+poly":
+        for n in range(N):
+            u[n] += poly_field(shape, sp[n], A, [0.0] * D, sym_from_upper(Q, D))[0]
+    return u
+
+
+@st.composite
+def stencil_cases(draw):
+    D = draw(gen.dims())
+    N = draw(st.sampled_from([1, 1, 2]))
+    sigma = draw(st.sampled_from([None, None, None, None, 0, 0.3, 0.5, 0.7, 0.8, 1.0, 1.2]))
+    lo = max(5, 2 * (gauss_radius(sigma) + 2) + 1)
+    shape = draw(st.lists(st.integers(lo, lo + (4 if D == 2 else 2)), min_size=D, max_size=D))
+    form, sp = draw(spacings_for(D, N, 0.5, 2.0))
+    nq = D * D * (D + 1) // 2
+    return {
+        "D": D, "N": N, "shape": shape, "dtype": draw(gen.dtypes()), "mode": draw(st.sampled_from(MODES + [None])),
+        "sigma": sigma, "spform": form, "sp": sp, "key": draw(st.integers(0, 10 ** 6)),
+        "content": draw(st.sampled_from(["noise", "noise", "noise+poly"])),
+        "A": coef_lists(draw, D * D, -1.0, 1.0), "Q": coef_lists(draw, nq, -0.5, 0.5),
+        "layout": draw(st.sampled_from(["contiguous", "contiguous", "strided"])),
+    }
+
+
+def stencil_grid(tier):
+    """Every mode x D x dtype x sigma class (none / 0 / radius 1 / radius 2) once."""
+    k = 0
+    for mode, D, dtype, sigma in itertools.product(MODES + [None], (2, 3), ("float32", "float64"), (None, 0, 0.5, 0.8)):
+        k += 1
+        N = 1 + k % 2
+        form = ALL_SPFORMS[k % len(ALL_SPFORMS)]
+        lo = max(5, 2 * (gauss_radius(sigma) + 2) + 1)
+        nq = D * D * (D + 1) // 2
+        yield {"D": D, "N": N, "shape": [lo + (k + d) % 3 for d in range(D)], "dtype": dtype, "mode": mode, "sigma": sigma,
+               "spform": form, "sp": [list(x) for x in fixed_spacing(form, D, N, k)], "key": k,
+               "content": "noise+poly" if k % 3 == 0 else "noise", "A": fixed_coef(k, D * D),
+               "Q": [round(0.4 * q + 0.03, 3) for q in fixed_coef(2 + k, nq)], "layout": "strided" if k % 5 == 0 else "contiguous"}
+
+
+def run_stencil(case):
+    from deepali.core import functional as U
+
+    D, N, shape, mode, sigma = case["D"], case["N"], tuple(case["shape"]), case["mode"], case["sigma"]
+    dt = tdtype(case["dtype"])
+    eps = eps_of(dt)
+    sp = case["sp"]
+    spacing = spacing_arg(case["spform"], sp)
+    u = as_layout(torch.tensor(noise_field(shape, N, D, case["key"], case["content"], sp, case["A"], case["Q"]), dtype=dt), case.get("layout"))
+    v = as_layout(torch.tensor(noise_field(shape, N, D, case["key"] + 1, "noise", sp, None, None), dtype=dt), case.get("layout"))
+    u0 = u.clone()
+    un, vn = u.double().numpy(), v.double().numpy()  # the samples deepali sees
+    kw = dict(mode=mode, spacing=spacing, sigma=sigma)
+    r = gauss_radius(sigma)
+    worst = 0.0
+
+    def region(order):
+        # with Gaussian pre-smoothing only samples that no stencil chain connects to the (padded) faces are compared
+        return interior(D, r + order if r > 0 else 0)
+
+    def close(actual, expected, bound, kind, what, order=1):
+        nonlocal worst
+        reg = region(order)
+        worst = max(worst, check_close(actual[reg], expected[reg], bound, kind, f"{what} (mode={mode}, sigma={sigma}, spacing {case['spform']})"))
+
+    # first and second derivatives of every component
+    d1 = U.flow_derivatives(u, order=1, **kw)
+    d2 = U.flow_derivatives(u, order=2, **kw)
+    R = [[{} for _ in range(D)] for _ in range(N)]  # R[n][c][letters] = (reference, bound)
+    for n in range(N):
+        for c in range(D):
+            for letters in list(AX[:D]) + ["".join(p) for p in itertools.product(AX[:D], repeat=2)]:
+                R[n][c][letters] = deriv_ref(un[n, c], letters, sp[n], mode, sigma, eps)
+                got = (d1 if len(letters) == 1 else d2)[f"d{CH[c]}/d{letters}"]
+                expect_shape(got, (N, 1) + shape, f"value of d{CH[c]}/d{letters}")
+                expect_dtype(got, dt, f"value of d{CH[c]}/d{letters}")
+                close(got[n, 0], R[n][c][letters][0], R[n][c][letters][1],
+                      "stencil_first_derivative" if len(letters) == 1 else "stencil_second_derivative",
+                      f"d{CH[c]}/d{letters} item {n}", order=len(letters))
+
+    # derived quantities assembled from the reference first derivatives
+    jm = U.jacobian_matrix(u, **kw)
+    det = U.jacobian_det(u, **kw)
+    div = U.divergence(u, **kw)
+    curl = U.curl(u, **kw)
+    lb = U.lie_bracket(v, u, **kw)
+    for n in range(N):
+        J = np.stack([np.stack([R[n][c][AX[j]][0] for j in range(D)], -1) for c in range(D)], -2)  # (..., X, D, D)
+        EJ = np.array([[R[n][c][AX[j]][1] for j in range(D)] for c in range(D)])
+        JV = np.stack([np.stack([deriv_ref(vn[n, c], AX[j], sp[n], mode, sigma, eps)[0] for j in range(D)], -1) for c in range(D)], -2)
+        EV = np.array([[deriv_ref(vn[n, c], AX[j], sp[n], mode, sigma, eps)[1] for j in range(D)] for c in range(D)])
+        for c in range(D):
+            for j in range(D):
+                close(jm[n][..., c, j], J[..., c, j], EJ[c, j], "stencil_jacobian_matrix", f"J[{c},{j}] item {n}")
+        E = J + np.eye(D)
+        m = max(1.0, float(np.abs(E).max()))
+        bnd = math.factorial(D) * D * m ** (D - 1) * float(EJ.max()) + 16 * eps * math.factorial(D) * m ** D
+        close(det[n, 0], np.linalg.det(E), bnd, "stencil_jacobian_det", f"item {n}")
+        mj = float(np.abs(J).max())
+        close(div[n, 0], np.trace(J, axis1=-2, axis2=-1), D * float(EJ.max()) + 4 * D * eps * mj, "stencil_divergence", f"item {n}")
+        if D == 2:
+            ec = (J[..., 1, 0] - J[..., 0, 1])[None]
+        else:
+            ec = np.stack([J[..., 2, 1] - J[..., 1, 2], J[..., 0, 2] - J[..., 2, 0], J[..., 1, 0] - J[..., 0, 1]])
+        for k in range(ec.shape[0]):
+            close(curl[n, k], ec[k], 2 * float(EJ.max()) + 8 * eps * mj, "stencil_curl", f"component {k} item {n}")
+        uu, vv = np.moveaxis(un[n], 0, -1), np.moveaxis(vn[n], 0, -1)
+        exp = np.einsum("...ij,...j->...i", JV, uu) - np.einsum("...ij,...j->...i", J, vv)
+        mu, mv = np.abs(un[n]).reshape(D, -1).max(-1), np.abs(vn[n]).reshape(D, -1).max(-1)
+        for i in range(D):
+            bnd = float(sum(EV[i, j] * mu[j] + EJ[i, j] * mv[j] for j in range(D)))
+            bnd += 8 * eps * float(sum(np.abs(JV[..., i, j]).max() * mu[j] + np.abs(J[..., i, j]).max() * mv[j] for j in range(D)))
+            close(lb[n, i], exp[..., i], bnd, "stencil_lie_bracket", f"component {i} item {n}")
+
+    if not torch.equal(u, u0):
+        raise Violation("input_modified", "a derivative function modified its input vector field")
+    return {"ratio": worst, "nontrivial": True,
+            "labels": [f"D={D}", f"N={N}", f"mode={mode}", case["dtype"], case["content"],
+                       "sigma=None" if sigma is None else ("sigma=0" if sigma == 0 else f"gauss_radius={r}"),
+                       f"sp={case['spform']}", "per_item_spacing" if per_item(sp) else "shared_spacing", case.get("layout", "contiguous")]}
+
+
+# ---------------------------------------------------------------------------------------
 
 
 def selftest():
@@ -741,6 +1033,20 @@ def selftest():
     # key expansion rule
     assert expand_keys(["x", "duw/dyx", "dv/dx"], 3) == ["du/dx", "dv/dx", "dw/dx", "du/dyx", "dw/dyx"]
     assert expand_keys(["x", "du/dxy"], 2, order=2) == ["du/dxy"]
+    # stencil reference model: documented face values on a ramp, exactness on polynomials, smoothing preserves ramps inside
+    ramp = np.add.outer(3.0 * np.arange(6.0), 0.5 * np.arange(7.0))  # f[y, x] = 3 y + 0.5 x, unit spacing
+    for mode, (lo, hi) in list(FACE.items()) + [("forward_central_backward", (1, 1)), ("prewitt", (1, 1)), ("sobel", (1, 1)), (None, (1, 1))]:
+        dx = deriv_ref(ramp, "x", [1.0, 1.0], mode, None, EPS64)[0]
+        dy = deriv_ref(ramp, "y", [1.0, 2.0], mode, None, EPS64)[0]
+        assert np.allclose(dx[:, 1:-1], 0.5) and np.allclose(dx[:, 0], 0.5 * lo) and np.allclose(dx[:, -1], 0.5 * hi), mode
+        assert np.allclose(dy[1:-1], 1.5) and np.allclose(dy[0], 1.5 * lo) and np.allclose(dy[-1], 1.5 * hi), mode
+        assert np.allclose(dx, jacobian_field(np.array([[0.5, 3.0], [0, 0]]), (6, 7), mode)[..., 0, 0]), mode
+        assert np.allclose(deriv_ref(ramp * ramp, "yx", [1.0, 1.0], mode, None, EPS64)[0][2:-2, 2:-2], 3.0), mode
+    g = gauss_ref(ramp, 0.8)
+    assert gauss_radius(0.8) == 2 and gauss_radius(0.3) == 0 and gauss_radius(None) == 0 and gauss_radius(1.0) == 3
+    assert np.allclose(g[2:-2, 2:-2], ramp[2:-2, 2:-2]) and not np.allclose(g[0], ramp[0])
+    alt = np.cos(np.pi * np.arange(9.0))[None].repeat(5, 0)  # Nyquist pattern along x: sobel/prewitt differ in the y-derivative
+    assert np.allclose(corr_ref(alt, 1, AVG["sobel"])[:, 1:-1], 0.0) and np.allclose(corr_ref(alt, 1, AVG["prewitt"])[:, 1:-1], -alt[:, 1:-1] / 3)
     # analytic field helper: x component first
     u, x = poly_field((2, 3), [0.5, 2.0], [1, 0, 0, 1], [0, 0])
     assert u.shape == (2, 2, 3) and u[0, 1, 2] == 1.0 and u[1, 1, 2] == 2.0
@@ -749,13 +1055,15 @@ def selftest():
 FACETS = [
     Facet("affine_first_order", run_affine, strategy=affine_cases,
           rule="affine u=Ax+a, v=Bx+b at x=index*spacing; D, shape 5..12 (sometimes up to 24), N 1..4, dtype, 6 FD modes + default, 10 spacing forms, contiguous/strided input; "
-               "flow_derivatives/jacobian_matrix/jacobian_dict/jacobian_det(+-identity)/divergence/curl/lie_bracket vs analytic; "
+               "flow_derivatives/jacobian_matrix/jacobian_dict/jacobian_det(+-identity)/divergence/curl/lie_bracket vs analytic at every grid point "
+               "(documented face values of the replicate-padded forward/backward/central schemes, exact on the faces otherwise); "
                "plus the complete grid mode x D x spacing form x dtype x N in 1..3 (840 fixed cases); "
                "non-trivial = every item has a non-zero off-diagonal of A and the spacing is anisotropic, per-item or isotropic-form",
-          quick=700, thorough=32000, shards=16, quick_shards=4,
+          quick=500, thorough=32000, shards=16, quick_shards=4,
           enumerate=affine_grid, exhaustive_tiers=("quick", "thorough")),
     Facet("quadratic_second_order", run_quadratic, strategy=quadratic_cases,
-          rule="quadratic fields, all order-2 keys (order=2 / explicit list / unmixed only), values 2Q two samples inside the faces, "
+          rule="quadratic fields, all order-2 keys (order=2 / explicit list / unmixed only), values 2Q on the per-mode/key region where the scheme is exact "
+               "(mixed keys of forward/backward/central/forward_central_backward: every grid point, times the face weights), "
                "both spellings of mixed keys equal; plus the grid mode x D x dtype x N in 1..3 x request kind (252 fixed cases); non-trivial = all |Q| entries > 0.004 and max shape >= 6",
           quick=500, thorough=20000, shards=16, quick_shards=2,
           enumerate=quadratic_grid, exhaustive_tiers=("quick", "thorough")),
@@ -769,6 +1077,14 @@ FACETS = [
                "requested derivatives of order <= 2, Jacobian, determinant, divergence, curl vs tensor-product reference spline; "
                "plus the grid stride form x D x spacing form x dtype x N in 1..3 (720 fixed cases); "
                "non-trivial = noise content and (stride > 1 or anisotropic spacing)",
-          quick=400, thorough=20000, shards=16, quick_shards=2,
+          quick=300, thorough=20000, shards=16, quick_shards=2,
           enumerate=bspline_grid, exhaustive_tiers=("quick", "thorough")),
+    Facet("stencil_reference", run_stencil, strategy=stencil_cases,
+          rule="hash-noise fields (optionally + quadratic polynomial), D, N 1..2, shapes 5..9 (up to 13 with pre-smoothing), dtype, 6 FD modes + "
+               "default, sigma in {None, 0, 0.3 (radius 0), 0.5 .. 1.2 (radius 1..3)}, all spacing forms, contiguous/strided; all first and "
+               "second derivatives, Jacobian matrix, determinant, divergence, curl, Lie bracket vs a numpy model of the documented stencils "
+               "(whole domain incl. faces without pre-smoothing, samples not connected to the faces with it); plus the grid mode x D x "
+               "dtype x sigma class (112 fixed cases); every case is non-trivial (noise content)",
+          quick=200, thorough=8000, shards=16, quick_shards=2,
+          enumerate=stencil_grid, exhaustive_tiers=("quick", "thorough")),
 ]
